@@ -435,12 +435,12 @@ package deflate
 //@   ensures[C01 C14 tokens-ok] tokensOK(ntokens)
 //@   ensures[C01 C10 tokens-counted] old(cntSmall(hist)) ==> (forall k :: old(len(tokens)) <= k && k < len(ntokens) ==> tokCounted(ntokens[k], hist))
 //@   ensures@5[C01 C10 tail-literal-count] nOffset - len(ntokens) == atentry(offset) - atentry(len(tokens))
-//@   assert call append 2 [C01 C19 match-token] 3 <= matchLength && matchLength <= 258 && 1 <= dist && int(dist) <= historySize && int(dist) <= offset && offset + matchLength <= len(input)
+//@   assert call append 2 [C01 C19 match-token] 3 <= matchLength && matchLength <= 258 && 1 <= dist && int(dist) <= old(historySize) && int(dist) <= offset && offset + matchLength <= len(input)
 //@   assert call compare 1 [C01 first8] forall k :: 0 <= k && k < 8 ==> input[prev+k] == input[offset+k]
 //@   assert call TrailingZeros64 1 [C01 first-ctz] forall k :: 0 <= k && k < ctz64(test)/8 ==> input[prev+k] == input[offset+k]
 //@   assert call append 2 [C01 match-bytes] split(test != 0) forall k :: 0 <= k && k < matchLength ==> input[offset-int(dist)+k] == input[offset+k]
 //@   assert call append 2 [C01 C19 match-symbols] lengthSymbol == matchLength + 254 && distSymbol < 30 && extraBits < uint32(1)<<distXBits(distSymbol) && distBase(distSymbol) + extraBits == dist
-//@   assert call append 1 [C01 C19 run-token] 1 <= dist && int(dist) <= historySize && int(dist) <= offset - 258 && lengthSymbol == 512 && distSymbol < 30 && extraBits < uint32(1)<<distXBits(distSymbol) && distBase(distSymbol) + extraBits == dist
+//@   assert call append 1 [C01 C19 run-token] 1 <= dist && int(dist) <= old(historySize) && int(dist) <= offset - 258 && lengthSymbol == 512 && distSymbol < 30 && extraBits < uint32(1)<<distXBits(distSymbol) && distBase(distSymbol) + extraBits == dist
 //@   assert call append 1 [C01 run-bytes] forall k :: 0 <= k && k < 258 ==> input[offset-258-int(dist)+k] == input[offset-258+k]
 //@   assert call append 3 [C01 literal] 1 <= offset && offset <= len(input) && lit == uint32(input[offset-1])
 //@   assert call append 4 [C01 flush-literal] 0 <= offset && offset < len(input)
